@@ -250,7 +250,7 @@ nextTable:
 				if ix.Mode == 'u' && allEmpty(r, ix.Cols) {
 					continue
 				}
-				f := fieldsOf(r, ix.Cols)
+				f := ixVals(r, ix)
 				if o, dup := seen[f]; dup {
 					add("C07/duplicate-in-state", "", "table %s: rows %v and %v share %s", tn, o, r, ixText(t, ix))
 					break uniq
@@ -461,9 +461,17 @@ func (h *harness) makeSchema(mode string) {
 		sm.order = append(sm.order, t.Name)
 	}
 	tA := func(name string) *tblDef {
-		return &tblDef{Name: name, Cols: []string{"k", "a", "b", "u", "tok"},
+		t := &tblDef{Name: name, Cols: []string{"k", "a", "b", "u", "tok"},
 			Idx: []idxDef{{Mode: 'k', Cols: []int{0}}, {Mode: 'i', Cols: []int{1}}, {Mode: 'u', Cols: []int{3}}},
 			Dom: [][]string{dom("k", nk, false), dom("a", 3, true), dom("b", 3, true), dom("u", g.Range(2, 5), true)}}
+		if g.Coin(1, 4) {
+			// unique on the lower case version of u, values that differ in case only
+			t.Idx[2].Lower = true
+			for _, v := range dom("U", 2, false) {
+				t.Dom[3] = append(t.Dom[3], v)
+			}
+		}
+		return t
 	}
 	switch fam {
 	case 0:
@@ -564,7 +572,7 @@ func (h *harness) makeSchema(mode string) {
 
 func (h *harness) adminText(t *tblDef) string {
 	var sb strings.Builder
-	fmt.Fprintf(&sb, "create %s (%s)", t.Name, strings.Join(t.Cols, ","))
+	fmt.Fprintf(&sb, "create %s (%s)", t.Name, t.colList())
 	for _, ix := range t.Idx {
 		sb.WriteString(" " + ixText(t, ix))
 		if ix.FkTable != "" {
